@@ -158,6 +158,13 @@ def call_value(ex: Exec, fn: SV, node: ast.Call) -> SV:
         _, q, pargs, pkw = fn.aux
         args, kwargs = eval_args(ex, node)
         return call_repo(ex, q, list(pargs) + args, {**pkw, **kwargs}, node)
+    bound = ex.c.opts.get("bind_callables", {}) if ex.fi.qualname == ex.c.target else {}
+    src = ast.unparse(node.func)
+    if src in bound:
+        # the contract's precondition fixes which repository function this callable is
+        args, kwargs = eval_args(ex, node)
+        ex.note_assumption(f"{ex.c.target}: `{src}` is {bound[src]} (stated in the contract)")
+        return call_repo(ex, bound[src], args, kwargs, node)
     args, kwargs = eval_args(ex, node)
     if kwargs:
         raise Unsupported("keyword call of opaque callable")
@@ -205,6 +212,9 @@ def call_method(ex: Exec, base: SV, name: str, node: ast.Call) -> SV:
         nb = ex.retype(base, alts[k])
         return call_method(ex, nb, name, node)
     r = lib.container_method(ex, base, name, node)
+    if r is not None:
+        return r
+    r = lib.opaque_method(ex, base, name, node)
     if r is not None:
         return r
     raise Unsupported(f"method .{name} on {bt} (line {ex.cur_line} of {ex.fi.qualname})")
